@@ -1,9 +1,11 @@
 --------------------------------- MODULE OutGen ---------------------------------
 EXTENDS OutputGeobox, CaseIO
-Sources == {"eu_3857_tile", "eu_32633_tile", "eu_4326_tile", "eu_3857_rot", "eu_4326_continental", "eu_3035_continental", "au_3577_tile", "au_4326_tile", "equator_4326"}
+Sources == {"eu_3857_tile", "eu_32633_tile", "eu_4326_tile", "eu_3857_rot", "eu_4326_continental", "eu_3035_continental", "au_3577_tile", "au_4326_tile", "equator_4326",
+            \* other pixel orientations: rotated by 180 degrees (x res < 0, y res > 0), south-up, mirrored, off-lattice origin
+            "eu_32633_rot180", "eu_4326_rot180", "eu_3857_southup", "eu_3857_mirrored", "eu_32633_offlattice"}
 Targets == {"4326", "3857", "3035", "6933", "32633", "3577", "utm", "utm-n", "utm-s"}
-OptSet == UNION { {[res |-> r, shape |-> "none", anchor |-> a, tight |-> t, tol |-> tl] : r \in {"auto", "fit", "explicit"}, a \in {"default", "center", "xy"}, t \in BOOLEAN, tl \in {<<1, 100>>, <<1, 10>>}},
-                  {[res |-> "same", shape |-> "none", anchor |-> "default", tight |-> t, tol |-> <<1, 100>>] : t \in BOOLEAN},
+OptSet == UNION { {[res |-> r, shape |-> "none", anchor |-> a, tight |-> t, tol |-> tl] : r \in {"auto", "fit", "explicit"}, a \in {"default", "edge", "center", "xy"}, t \in BOOLEAN, tl \in {<<1, 100>>, <<1, 10>>}},
+                  {[res |-> "same", shape |-> "none", anchor |-> a, tight |-> t, tol |-> <<1, 100>>] : a \in {"default", "edge"}, t \in BOOLEAN},
                   {[res |-> "auto", shape |-> s, anchor |-> a, tight |-> t, tol |-> <<1, 100>>] : s \in {"pair", "int"}, a \in {"default", "center"}, t \in BOOLEAN} }
 Valid(s, t) == \/ t \in {"4326", "3857", "6933", "utm", "utm-n", "utm-s"}
                \/ (t \in {"3035", "32633"} /\ s \notin {"au_3577_tile", "au_4326_tile", "equator_4326"})
